@@ -220,7 +220,24 @@ func (g *surfGen) form() string {
 	case 1:
 		g.labels["func"] = true
 		n := g.name("f")
-		return fmt.Sprintf("(func %s [a:int64 b:string] [n:int64] (+ a 1))\n(trace (%s 1 \"z\"))", n, n)
+		decl := fmt.Sprintf("(func %s [a:int64 b:string] [n:int64] (+ a 1))\n", n)
+		// called with positional or NAMED arguments, at top level, under def, in a let, in a function body
+		call := rapid.SampledFrom([]string{"(%s 1 \"z\")", "(%s a:1 b:\"z\")", "(%s b:\"z\" a:2)"}).Draw(g.t, "fcall")
+		call = fmt.Sprintf(call, n)
+		if strings.Contains(call, "a:") {
+			g.labels["func-called-with-named-arguments"] = true
+		}
+		switch rapid.IntRange(0, 4).Draw(g.t, "fsite") {
+		case 0:
+			return decl + call
+		case 1:
+			return decl + "(def fr" + n + " " + call + ")"
+		case 2:
+			return decl + "(let [q 1] " + call + ")"
+		case 3:
+			return decl + "(defn w" + n + " [] " + call + ")\n(w" + n + ")"
+		}
+		return decl + "(trace " + call + ")"
 	case 2:
 		g.labels["func-return"] = true
 		n := g.name("r")
@@ -253,7 +270,11 @@ func (g *surfGen) form() string {
 		g.labels["infix"] = true
 		return rapid.SampledFrom([]string{"{xa, xb = 1, 2}", "{ya = 3; ya + 1}", "{sarr[1] = 6}", "{shash.k = 8}", "{ya = 1; ya++; ya}", "{if ya > 0 { 1 } else { 2 }}", "{for i := 0; i < 3; i++ { ya += i }}", "{ya = sarr[0] + shash.k}"}).Draw(g.t, "infix")
 	case 11:
-		return rapid.SampledFrom([]string{"(assert true)", "(eval (quote (+ 1 2)))", "(begin)", "(newScope)", "()", "{}", "(begin 1 2)", "(newScope (def q 1) q)"}).Draw(g.t, "misc")
+		return rapid.SampledFrom([]string{"(assert true)", "(eval (quote (+ 1 2)))", "(begin)", "(newScope)", "()", "{}", "(begin 1 2)", "(newScope (def q 1) q)",
+			// forms with more (or fewer) parts than usual: whatever they mean, a successful one leaves nothing behind
+			"(quote a b c)", "(quote)", "(def la 0) (def lb 0) (la lb = 1 2)", "(def la 0) (la = 5)", "(def la 0) (def lb 0) (def lc 0) (la lb lc = 1 2 3)",
+			"(begin (quote x) (quote y))", "(cond true 1)", "(cond false 1)", "(and)", "(or)", "(and 1)", "(let [] 1)", "(letseq [] 1)", "(list)", "(hash)", "[]",
+			"(macexpand (quote (+ 1 2)))", "(str)", "(fn [] 1)", "((fn [] 1))", "((fn [& r] r))", "(apply + [1 2])", "(map (fn [x] x) [])"}).Draw(g.t, "misc")
 	case 12, 13:
 		// a statement-like form in a NON-FINAL position of a body that is evaluated in an argument position
 		g.labels["statement-in-nonfinal-body-position-under-argument"] = true
